@@ -110,7 +110,8 @@ func PoW(r *ev.Run, tier string) (evals int64, err error) {
 // kept in tools/powmine.go.txt) against the epoch-0 cache (29999) and the epoch-1 cache (30000, 30001):
 //
 //	T(29998) - A1(29999) - A2(30000) - A3(30001)
-//	                     \ B2(30000) - B3(30001)
+//	         |           \ B2(30000) - B3(30001)
+//	         \ L1(29999, 1000 s after T) - L2(30000)
 //
 // Height 30000 is the first block of ethash epoch 1. Every header obeys all rules relative to its parent; being mined,
 // each is valid for any correct ethash verifier.
@@ -128,6 +129,10 @@ var epochFixture = []struct {
 	{"A3", "A2", 30001, 39, 0xa3, 39370, "6a8c860563f677fa1a0b4957b5a9b9b10c3d8935556401cb9a9baa60acd986bb", "0x1da97c4dab8cfb3025deeedb421e8807c30b1a286b1b677c25bd4baae44e9fd2"},
 	{"B2", "A1", 30000, 27, 0xb2, 51049, "7de9b792e80a9352c91b801b53f3e0bfa80e5177b3b3b00f830f02859e46de84", "0x259246ad42678f0731ddaf72501bc95acbb4702737c89611c6f28c7c38298b89"},
 	{"B3", "B2", 30001, 41, 0xb3, 170199, "471c478af91c2cb3cd277ffb4ca20e4700784b8dda7bfd4230311d9f7c45dd39", "0xf693d4c905de136199bc5d19eb506277e02946b7526711da143143b3a83ec796"},
+	// a third branch whose first header comes 1000 s after its parent (the difficulty adjustment is clamped at -99 and
+	// floored at the minimum difficulty) and whose second header follows after 13 s
+	{"L1", "T", 29999, 1000, 0xc1, 49143, "8adde6c9274dbc6d139515197c72a091e1919f04604c97ebffb892b21abd61f5", "0x03ee6e2c3c7d536f74008fd189d7cbf7f5b71bc47413e62d84d7f9d9b4589062"},
+	{"L2", "L1", 30000, 1013, 0xc2, 259874, "dacf10645e2ebf28810e282e5f6b3f58756ca27abbb93dce23263ffa835f40d0", "0xe5c1d3adba8f3393c9eb18bc651dddcc5ed768cb08af93ddaee85edd92f1a04d"},
 }
 
 const epochT0 = uint64(1700000000)
@@ -209,6 +214,24 @@ func EpochBoundary(r *ev.Run, tier string) (evals int64) {
 		}
 	}
 	rec(nil, []string{"A1", "A2", "A3", "B2", "B3"}, 0)
+	// the long-gap branch: quick — submitted as a block before and after each order of the other two branches (and an
+	// unsealed copy of L1 first: a refused header must leave nothing behind either); thorough — at every position
+	{
+		base := orders
+		orders = nil
+		for _, o := range base {
+			for pos := 0; pos <= len(o); pos++ {
+				if tier != "thorough" && pos != 0 && pos != len(o) {
+					continue
+				}
+				n := append(append(append([]string{}, o[:pos]...), "L1", "L2"), o[pos:]...)
+				orders = append(orders, n)
+				if pos == 0 {
+					orders = append(orders, append([]string{"L1-unsealed"}, o...))
+				}
+			}
+		}
+	}
 	type mut struct {
 		name string
 		f    func(h *ethclient.Header)
@@ -234,7 +257,7 @@ func EpochBoundary(r *ev.Run, tier string) (evals int64) {
 		return host.C.App.XIBCKeeper.ClientKeeper.UpdateClient(ctx, "eth-pow", &h)
 	}
 	newClient := func() sdk.Context {
-		ctx := host.Ctx(time.Unix(int64(epochT0)+1000, 0))
+		ctx := host.Ctx(time.Unix(int64(epochT0)+1100, 0))
 		g := hs["T"]
 		cs := &ethclient.ClientState{Header: g, ChainId: 1, ContractAddress: common.HexToAddress("0x20000001").Bytes(), TrustingPeriod: 99_999_999, BlockDelay: 1}
 		cons := &ethclient.ConsensusState{Timestamp: g.Time, Height: g.Height, Root: g.Root}
@@ -258,6 +281,15 @@ func EpochBoundary(r *ev.Run, tier string) (evals int64) {
 			ctx := newClient()
 			accepted := map[string]bool{"T": true}
 			for i, n := range order {
+				if n == "L1-unsealed" {
+					h := hs["L1"]
+					h.Nonce++
+					if err := update(ctx, h); err == nil {
+						viol("pow-or-difficulty-mutation-accepted/long-gap-nonce+1", "header 1000 s after its parent accepted with another nonce", order[:i+1])
+						return
+					}
+					continue
+				}
 				h := hs[n]
 				err := update(ctx, h)
 				want := accepted[parentOf[n]]
